@@ -106,6 +106,26 @@ WsFromR(w, i, acc, srv) ==
                                   Append(acc, IF d.ok = "ok" THEN <<"msg", d.m>> ELSE IF d.ok = "bad" THEN <<"bad">> ELSE <<d.ok>>), srv)
 WsFrom(w, i, acc) == WsFromR(w, i, acc, TRUE)
 
+\* What a SERVER writes after its handshake response (the write side, C01): complete, unmasked binary frames with the minimal length form
+\* (RFC 6455 section 5.2: 7 bits up to 125, 16 bits up to 65535), each carrying exactly one well-formed CoAP message; a close frame may end it.
+\* Returns the number of messages, or -1 where the bytes stop being that.
+RECURSIVE WsWritten(_, _, _)
+WsWritten(w, i, n) ==
+  IF i > Len(w) THEN n
+  ELSE IF i + 1 > Len(w) THEN -1
+  ELSE LET b0 == w[i]
+           b1 == w[i + 1]
+           l7 == b1 % 128
+           hl == 2 + (IF l7 = 126 THEN 2 ELSE IF l7 = 127 THEN 8 ELSE 0)
+       IN IF b0 % 16 = 8 THEN n
+          ELSE IF b0 # 130 \/ b1 >= 128 THEN -1
+          ELSE IF i + hl - 1 > Len(w) THEN -1
+          ELSE LET len == IF l7 < 126 THEN l7 ELSE IF l7 = 126 THEN w[i + 2] * 256 + w[i + 3] ELSE w[i + 8] * 256 + w[i + 9]
+               IN IF (l7 = 126 /\ len < 126) \/ (l7 = 127 /\ len < 65536) THEN -1
+                  ELSE IF i + hl + len - 1 > Len(w) THEN -1
+                  ELSE IF DecWS(SubSeq(w, i + hl, i + hl + len - 1)).ok # "ok" THEN -1
+                  ELSE WsWritten(w, i + hl + len, n + 1)
+
 WsMessagesR(w, hl, srv) == IF Len(w) < hl THEN << >> ELSE WsFromR(w, hl + 1, << >>, srv)
 WsMessages(w, hl) == WsMessagesR(w, hl, TRUE)
 ObsWS(w, hl) == ObsFrom(WsMessages(w, hl), 1, << >>)
